@@ -75,7 +75,9 @@ type DirCase struct {
 	NotFound bool      `json:"notfound"`
 	Mode     string    `json:"mode"`
 	Script   [][]any   `json:"script"`
-	MixV0    bool      `json:"mixv0"` // entries with odd ids point at a CIDv0 (34-byte) target instead of a CIDv1 (36-byte) one
+	MixV0    bool      `json:"mixv0"`
+	Timeout  bool      `json:"timeout"` // injected load errors report themselves as timeouts
+	Hasher   uint64    `json:"hasher"`  // sharded builder: multihash code of the name hasher (0 = murmur3) // entries with odd ids point at a CIDv0 (34-byte) target instead of a CIDv1 (36-byte) one
 }
 
 const nTargets = 4
@@ -139,7 +141,11 @@ func buildDir(st *Store, dc *DirCase, targets []cid.Cid) (cid.Cid, uint64, error
 		if dc.Builder == "dir" {
 			l, sz, err = builder.BuildUnixFSDirectory(ents, ls)
 		} else {
-			l, sz, err = builder.BuildUnixFSShardedDirectory(dc.Fanout, multihash.MURMUR3X64_64, ents, ls)
+			hasher := uint64(multihash.MURMUR3X64_64)
+			if dc.Hasher != 0 {
+				hasher = dc.Hasher
+			}
+			l, sz, err = builder.BuildUnixFSShardedDirectory(dc.Fanout, hasher, ents, ls)
 		}
 		if err != nil {
 			return cid.Undef, 0, err
@@ -549,6 +555,7 @@ func runDirCase(dc *DirCase, tr *Tr) error {
 		st.missing[key(dw.cids[m])] = true
 	}
 	st.notFound = dc.NotFound
+	st.timeout = dc.Timeout
 	st.logLoads = true
 	st.loadCount = 0
 	st.failLoadAt = dc.FailAt
